@@ -86,16 +86,20 @@ def _run(ctx, case, net):
     res = {k: {} for k in ids}
     T = case["timeout"]
     t0 = max([world.now] + [nn.wnode.t for nn in net.nodes])
-    join_end = t0 + int((2.0 + T + 1.0) * 1e9)
-    slot = 1400 * W.MS
     order = list(ids)
-    phase2 = {k: join_end + i * slot for i, k in enumerate(order)}
-    phase3 = join_end + len(order) * slot + 200 * W.MS
     rel = [k for i, k in enumerate(order) if i % 3 == 0][:3]
-    phase3_at = {k: phase3 + i * int((T + 1.5) * 1e9) for i, k in enumerate(rel)}
-    end_at = phase3 + len(rel) * int((T + 1.5) * 1e9) + 300 * W.MS
+    # dynamic barriers: phase 2 starts when every joiner has returned from renew_address();
+    # inside phases 2 and 3 the nodes act strictly one at a time ("turn")
+    st = {"joined": 0, "turn2": 0, "turn3": 0, "done": 0}
+    end_cap = t0 + int((2.0 + T + 2.0) * 1e9) + len(order) * 3000 * W.MS + len(rel) * int((T + 3.0) * 1e9)
     applog = {k: joiners[k].applog for k in ids}
-    world.horizon = end_at + 10 * 1000 * W.MS
+    world.horizon = end_cap + 10 * 1000 * W.MS
+
+    def pump_while(nn, cond):
+        wn = nn.wnode
+        while cond() and wn.t < end_cap:
+            net.pump_idle(nn)
+            net.wait(nn, 2 * W.MS)
 
     def pump_until(nn, t_abs):
         wn = nn.wnode
@@ -104,7 +108,8 @@ def _run(ctx, case, net):
             net.wait(nn, min(t_abs - wn.t, 2 * W.MS))
 
     def master_app(nn):
-        pump_until(nn, end_at)
+        pump_while(nn, lambda: st["done"] < len(ids))
+        pump_until(nn, nn.wnode.t + 30 * W.MS)
         world.stopping = True
 
     def joiner_app(nn, k):
@@ -119,7 +124,10 @@ def _run(ctx, case, net):
             r["join"] = "no return"
         r["join_ms"] = (wn.t - t_start) / 1e6
         r["addr_after_join"] = o.node_address
-        pump_until(nn, phase2[k])
+        st["joined"] += 1
+        me = order.index(k)
+        pump_while(nn, lambda: st["joined"] < len(ids) or st["turn2"] != me)
+        pump_until(nn, wn.t + 10 * W.MS)
         if r["join"] not in (None, "no return"):
             try:
                 others = [j for j in ids if j != k and res[j].get("join") not in (None, "no return")]
@@ -143,8 +151,10 @@ def _run(ctx, case, net):
                 r["phase2"] = "no return"
         else:
             r["cc"] = net.call(nn, "check_connection", o.check_connection, deadline_ms=3000)
-        if k in phase3_at:
-            pump_until(nn, phase3_at[k])
+        st["turn2"] += 1
+        if k in rel:
+            pump_while(nn, lambda: st["turn2"] < len(ids) or st["turn3"] != rel.index(k))
+            pump_until(nn, wn.t + 10 * W.MS)
             has_kids = any(net_ref.is_descendant(v, o.node_address) for v in master.obj.dhcp_dict.values())
             # releasing a node that relays for others would orphan them (outside the property)
             if r["join"] not in (None, "no return") and not has_kids:
@@ -159,7 +169,9 @@ def _run(ctx, case, net):
                     r["old"] = old
                 except W.VirtualDeadline:
                     r["phase3"] = "no return"
-        pump_until(nn, end_at)
+            st["turn3"] += 1
+        st["done"] += 1
+        pump_while(nn, lambda: not world.stopping)
 
     for nn in net.nodes:
         nn.wnode.t = t0
